@@ -81,6 +81,11 @@ pub fn exec(case: &[i64]) -> Outcome {
     }
     // (2) never under another method's key, a different nonce, or an excluding scope
     if doc.verify_jws(jws.as_str(), det, &EdDSAJwsVerifier::default(), &base().method_id(other_id)).is_ok() { o = o.fail("token verifies under another method's key"); }
+    // a method id of ANOTHER DID with the same fragment names no method of this document
+    for foreign in ["did:example:holder2", "did:other:holder1", "did:example:holder1:sub"] {
+      let fid = identity_did::DIDUrl::parse(format!("{}#{}", foreign, frags[which].trim_start_matches('#'))).unwrap();
+      if doc.verify_jws(jws.as_str(), det, &EdDSAJwsVerifier::default(), &base().method_id(fid)).is_ok() { o = o.fail("token verifies although the configured method id names a method of another DID (same fragment)"); }
+    }
     let wrong_nonce = { let mut v = JwsVerificationOptions::new(); v = if mask & 32 != 0 { v.nonce("nonce-2") } else { v.nonce("nonce-1") }; if mask & 64 != 0 { v = v.method_id(own_id.clone()); } v };
     if doc.verify_jws(jws.as_str(), det, &EdDSAJwsVerifier::default(), &wrong_nonce).is_ok() { o = o.fail("token verifies under a different nonce"); }
     if mask & 32 != 0 { let mut v = JwsVerificationOptions::new(); if mask & 64 != 0 { v = v.method_id(own_id.clone()); } if doc.verify_jws(jws.as_str(), det, &EdDSAJwsVerifier::default(), &v).is_ok() { o = o.fail("token with a nonce verifies without one"); } }
